@@ -109,7 +109,7 @@ fn replay_one(cfg: &Config, b: &Value, timeout: Duration) -> (Value, Vec<sched::
         let p = progs[c].clone();
         handles.push(
             std::thread::Builder::new()
-                .name(role.clone())
+                .name(format!("{}-pool_thread_{}", env.cfg.name, role))
                 .spawn(move || client_main(shc, role, p))
                 .unwrap(),
         );
